@@ -364,12 +364,21 @@ def triage_harness(h, r):
 
 
 def extract_playback_test(out):
-    m = re.search(r"```\s*\n(\s*(?:///.*\n\s*)*#\[test\].*?)```", out, re.S)
-    if not m:
+    """Kani prints one unit test per cover/failed check; keep the one generated for a failed
+    assertion / safety check (not for a `cover`)."""
+    blocks = re.findall(r"```\s*\n(.*?)```", out, re.S)
+    best = None
+    for b in blocks:
+        if "#[test]" not in b:
+            continue
+        if re.search(r"Check for `cover`", b):
+            continue
+        best = b
+        break
+    if best is None:
         return None, None
-    code = m.group(1)
-    n = re.search(r"fn\s+(kani_concrete_playback_\w+)", code)
-    return code, (n.group(1) if n else None)
+    n = re.search(r"fn\s+(kani_concrete_playback_\w+)", best)
+    return best, (n.group(1) if n else None)
 
 
 def native_replay(scratch, target, unit, test_code, test_name, logdir):
@@ -380,8 +389,9 @@ def native_replay(scratch, target, unit, test_code, test_name, logdir):
     txt = txt[:idx] + "\n" + test_code + "\n}\n"
     open(p, "w").write(txt)
     cmd = ["cargo", "kani", "playback", "-p", "serde_avro_fast", "-Z", "concrete-playback",
-           "--target-dir", target + "-playback", "--", test_name, "--nocapture"]
-    rc, out, wall, _ = run_cmd(cmd, scratch, timeout=900, logfile=os.path.join(logdir, f"playback-{test_name}.log"))
+           "--", test_name, "--nocapture"]
+    rc, out, wall, _ = run_cmd(cmd, scratch, env={"CARGO_TARGET_DIR": target + "-playback"}, timeout=900,
+                               logfile=os.path.join(logdir, f"playback-{test_name}.log"))
     ran = re.search(r"running (\d+) test", out)
     n_ran = int(ran.group(1)) if ran else 0
     failed_natively = rc != 0 and ("FAILED" in out or "panicked" in out or "SIG" in out or "overflow" in out)
@@ -538,6 +548,10 @@ def run_property(pid, tier, repo=REPO, keep=False, quiet_evidence=False, record_
     cfg = P.PROPS[pid]
     units = load_units()
     harnesses = select_harnesses(units, pid, tier)
+    only = os.environ.get("VERIF_ONLY")
+    if only:  # development aid; never used by registered commands
+        harnesses = [h for h in harnesses if any(o in h["name"] for o in only.split(","))]
+        evidence = False
     used_units = []
     for h in harnesses:
         if h["unit"] not in used_units:
